@@ -169,12 +169,12 @@ def cells(tier):
             for years in ((-1, 0, 1) if kind == "date" else (0,)):
                 if not (2 <= y + years <= 9998):
                     continue
-                for absf in pats:
-                    for wd in (None, "pos", "neg"):
+                for absf in (pats if y == 2024 else pats[:3] + pats[5:6]):      # the full field patterns at 2024, the calendar ones elsewhere
+                    for wd in ((None, "pos", "neg") if (y == 2024 and years == 0) else (None, "pos")):
                         for op in ("add", "sub", "radd"):
                             if op != "add" and (y != 2024 or years != 0):
                                 continue
-                            add(kind, y, years, absf, wd, op, 1200)
+                            add(kind, y, years, absf, wd, op, 900)
     for years in (-3, -1, 1, 2):
         for absf in ((), ("month",), ("day",)):
             for op in ("add", "sub", "radd"):
